@@ -259,6 +259,7 @@ ItemOK(it, t) ==
             \* exactly the outcome of the one invocation
             \* (the built-in rpc.serverInfo returns its own payload, not the member tag)
             IF x.out = "ok" THEN Imp("C01", it.kind = "result" /\ (it.tag = t \/ x.m = "info"))
+            ELSE IF x.out = "err:baddata" THEN Imp("C01", it.kind = "error")   \* an *Error that cannot be encoded as it stands: an error object all the same
             ELSE Imp("C01", it.kind = "error" /\ it.code = CodeOf(x.out))
        [] x.st = "ready" ->
             \* never ran: only a justified cancellation while waiting for a slot explains it
